@@ -83,6 +83,7 @@ type expect struct {
 	Async      map[string][][]interface{} `json:"async"`
 	Binds      map[string][]string        `json:"binds"`
 	Exports    map[string][]expExport     `json:"exports"`
+	Closure    map[string][]string        `json:"closure"`
 	Subsets    []expSubset                `json:"subsets"`
 }
 
@@ -547,6 +548,37 @@ func (c *gcase) checkRun(run *nodeRun, entryNames []string) []string {
 			if !ok || de > startAt[m] {
 				bad = append(bad, fmt.Sprintf("module %s started before %s, whose bindings it reads, was evaluated", m, d))
 			}
+		}
+	}
+	// a module outside the static closure of the loaded entry points is evaluated lazily: only after the body of a
+	// module whose import() reaches it has ended
+	eager := map[string]bool{}
+	for _, e := range loadedEntries {
+		for _, m := range c.Expect.Closure[e] {
+			eager[m] = true
+		}
+	}
+	for _, x := range sortedCopy(ran) {
+		if eager[x] {
+			continue
+		}
+		ok := false
+		for _, m := range ran {
+			f := c.file(m)
+			em, ended := endAt[m]
+			if f == nil || !ended || em > startAt[x] {
+				continue
+			}
+			for _, d := range f.Dyn {
+				for _, y := range c.Expect.Closure[d] {
+					if y == x {
+						ok = true
+					}
+				}
+			}
+		}
+		if !ok {
+			bad = append(bad, fmt.Sprintf("module %s is only reachable through import() but was evaluated before any import() that reaches it", x))
 		}
 	}
 	// what the loaded entry points observe: their namespaces and the shared state
@@ -1162,9 +1194,11 @@ func evaluateCase(r *core.Run, p *prepared, byID map[string]*nodeResult) (out ca
 				r.Violation(key("outputs"), fmt.Sprintf("%s (%s): an entry point has no output file", c.Label, b.cfg.Name), replay(map[string]interface{}{"emitted": emitted}))
 			}
 		}
+		runBad := false
 		for i := range res.Runs {
 			out.runs++
 			if bad := c.checkRun(&res.Runs[i], c.Entries); len(bad) > 0 {
+				runBad = true
 				var seqNames []string
 				for _, ei := range res.Runs[i].Seq {
 					seqNames = append(seqNames, c.Entries[ei])
@@ -1186,7 +1220,7 @@ func evaluateCase(r *core.Run, p *prepared, byID map[string]*nodeResult) (out ca
 		if shared > out.shared {
 			out.shared = shared
 		}
-		if len(diff) > 0 {
+		if len(diff) > 0 && !runBad {
 			// the linker's chunking differs from the spec's rule; whether the real one is WRONG is decided by the
 			// invariants on the real state and by the run above, so this alone is a drift of the spec's rule
 			r.Drift("case %s (%s): chunk graph differs from Compute(G): %s", c.Label, b.cfg.Name, strings.Join(diff, "; "))
